@@ -103,7 +103,14 @@ void Simulate::init_serial(
     if (serial_out == nullptr)
     {
       printf("Error opening outfile %s\n", out_name);
-      fclose(serial_in);
+
+      // There may be no infile, and the destructor closes what is left.
+      if (serial_in != nullptr)
+      {
+        fclose(serial_in);
+        serial_in = nullptr;
+      }
+
       return;
     }
   }
